@@ -217,6 +217,21 @@ pub fn gen_tree_eligible(rng: &Rng, pool: &Pool, depth: usize, max_files: usize,
         if rng.chance(1, 6) {
             n = "Same.sol".to_string();
         }
+        // eligible names of unusual shape: several dots, a leading dot, spaces, very short stems
+        if rng.chance(1, 6) {
+            let k = rng.below(50);
+            n = match rng.below(9) {
+                0 => format!("Token{}.flat.sol", k),
+                1 => format!(".Hidden{}.sol", k),
+                2 => format!("ERC20.permit.v{}.sol", k),
+                3 => format!("with space {}.sol", k),
+                4 => "T.sol".to_string(),
+                5 => "t.sol".to_string(),
+                6 => "sol.sol".to_string(),
+                7 => format!("v1.{}.sol", k),
+                _ => format!("{}.SOL.sol", ident(rng)),
+            };
+        }
         if used.insert(n.clone()) {
             let (_, text) = rng.pick(&pool.progs);
             ents.push(Ent::File { name: n.clone(), bytes: text.clone().into_bytes() });
